@@ -460,3 +460,71 @@ pub fn hole_case(i: u64) -> String {
     let fill = if k < n { al[k as usize].clone() } else { format!("{} {}", al[((k - n) % n) as usize], al[((k - n) / n) as usize]) };
     t.replace('§', &fill)
 }
+
+
+/// Every list construct with 0..=40 elements: the number of elements is a dimension of its own.
+pub const LIST_TEMPLATES: &[(&str, &str, &str)] = &[
+    // (text with the hole §, element, separator)
+    ("array[int[8], §] a;", "2", ", "),
+    ("def f(readonly array[int[8], §] a) { }", "2", ", "),
+    ("array[int[8], 3] a = {§};", "1", ", "),
+    ("gate g(§) q { }", "p%", ", "),
+    ("gate g §{ }", "q%", ", "),
+    ("def f(§) { }", "int p%", ", "),
+    ("x = f(§);", "%", ", "),
+    ("U(§) q;", "1", ", "),
+    ("cx §;", "q[%]", ", "),
+    ("barrier §;", "$%", ", "),
+    ("x = a[§];", "%", ", "),
+    ("x = a§;", "[%]", ""),
+    ("switch (x) { case § { } }", "%", ", "),
+    ("switch (x) { § default { } }", "case % { }", " "),
+    ("for int i in {§} { }", "%", ", "),
+    ("§x q;", "inv @ ", ""),
+    ("§x q, r;", "ctrl @ ", ""),
+    ("let a = §;", "q[%]", " ++ "),
+    ("x = §;", "%", " + "),
+    ("x = §1;", "-", ""),
+    ("extern f(§) -> int;", "int", ", "),
+    ("§", "int v%;", " "),
+    ("§", "@a%\n", ""),
+    ("§int x;", "pragma p%\n", ""),
+    ("if (c) § x = 1;", "{ } else if (c)", " "),
+    ("int[8] x = §;", "0x%", " | "),
+    ("qubit[§] q;", "1", " * "),
+];
+
+pub fn list_length_count() -> u64 {
+    LIST_TEMPLATES.len() as u64 * 41
+}
+
+pub fn list_length_case(i: u64) -> String {
+    let (t, e, sep) = LIST_TEMPLATES[(i / 41) as usize % LIST_TEMPLATES.len()];
+    let k = i % 41;
+    let items: Vec<String> = (0..k).map(|j| e.replace('%', &j.to_string())).collect();
+    t.replace('§', &items.join(sep))
+}
+
+/// A fragment repeated to a count around 100 and 256, followed by a tail that is itself erroneous or a
+/// lone symbol: what the parser does *after* its n-th diagnostic.
+pub fn counted_tail_count() -> u64 {
+    let u = repeat_units().len() as u64;
+    u * 6 * u
+}
+
+pub fn counted_tail_case(i: u64) -> String {
+    let units = repeat_units();
+    let u = units.len() as u64;
+    let tail = &units[(i % u) as usize];
+    let n = [98u64, 99, 100, 101, 255, 256][((i / u) % 6) as usize];
+    let unit = &units[(i / u / 6) as usize % units.len()];
+    let n = if NESTING_UNITS.contains(&unit.trim()) { n.min(250) } else { n };
+    let mut s = String::new();
+    for _ in 0..n {
+        s.push_str(unit);
+        s.push('\n');
+    }
+    s.push_str(tail);
+    s.push_str("\nint after = 1;\n");
+    s
+}
